@@ -552,7 +552,9 @@ def _gen_cache(repo: str) -> t.List[str]:
         raise Untranslatable(ob, "add_table does not start by normalising the table")
     skips = False
     rest = body[1:]
-    if rest and isinstance(rest[0], ast.If) and _dotted(rest[0].test) == "self._schema.find(table)":
+    # `if self._schema.find(table): return`, or the same guarded by `not replace` (replace=True is only passed by
+    # createOrReplaceTempView, never by the writer / reader paths modelled here)
+    if rest and isinstance(rest[0], ast.If) and _dotted(rest[0].test) in ("self._schema.find(table)", "not replace and self._schema.find(table)"):
         g = rest[0]
         if len(g.body) == 1 and isinstance(g.body[0], ast.Return) and g.body[0].value is None and not g.orelse:
             skips = True
